@@ -41,6 +41,7 @@ TripleMixes == {[t \in Threads |-> IF t = "t1" THEN a ELSE IF t = "t2" THEN b EL
 PreNone == {}
 PreAB == {<<"s1", "B">>, <<"s1", "A">>, <<"s2", "B">>, <<"s2", "A">>}
 PreS1 == {<<"s1", "B">>, <<"s1", "A">>}
+PreS2 == {<<"s2", "B">>, <<"s2", "A">>}
 
 View == <<svars, pvars, stack, result, wstate, gvars, ops>>
 NoRev(h) == \A i \in DOMAIN h : h[i][3] # "rev"
